@@ -98,6 +98,7 @@ def run(cid, tier, jobs=0):
     counters = {}
     classes = {}
     skips = {}
+    reach = {}
     samples = []
     violations = []
     inconclusive = []
@@ -126,6 +127,8 @@ def run(cid, tier, jobs=0):
                 gd[k] = gd.get(k, 0) + v
         for k, v in r['skips'].items():
             skips[k] = skips.get(k, 0) + v
+        for k, v in r.get('reach', {}).items():
+            reach[k] = reach.get(k, 0) + v
         for k, v in r.get('extra', {}).items():
             extra.setdefault(k, []).append(v)
         if len(samples) < 5:
@@ -139,6 +142,10 @@ def run(cid, tier, jobs=0):
         if counters.get(name, 0) == 0:
             inconclusive.append('required monitor/anchor %r was never '
                                 'reached' % name)
+    for name in getattr(mod, 'ANCHORS', []):
+        if reach and not any(k.endswith(':' + name) for k in reach):
+            inconclusive.append('anchored mechanism %r was never executed' %
+                                name)
     min_nt = plan.get('min_nontrivial', 2)
     if len(fps) < min_nt:
         inconclusive.append('only %d distinct non-trivial cases (< %d)' %
@@ -238,6 +245,10 @@ def run(cid, tier, jobs=0):
         'pythonhashseeds': sorted({r.get('hashseed') for r in results
                                    if r.get('hashseed') is not None}),
         'kernels': kinfo,
+        'biom_functions_executed': len(reach),
+        'biom_function_calls': dict(sorted(reach.items(),
+                                           key=lambda kv: -kv[1])[:45]),
+        'anchors_required': getattr(mod, 'ANCHORS', []),
         'extra_lane': None if lane is None else lane[1],
         'sanitizer_lane': None if san is None else {
             'status': san['status'], 'reports': len(san['reports']),
